@@ -3,7 +3,7 @@ CONSTANTS
   MaxFrames = 6
   NPages = 2
   PgMin = 1
-  BothBad = TRUE
+  BothBad = FALSE
   MaxBad = 2
   NParts = 48
   Part = 0
